@@ -172,7 +172,7 @@ def scen_pol_equiv(env, cfg):
     b2 = env.real('beta_2', 1, 25) if (mode == 'stepsize' and not cfg.get('beta3_only')) else 0
     b3 = env.real('beta_3', 0.05, 0.2) if cfg.get('beta3_only') else 0
     if not env.symbolic:
-        env.assume(phi * 3 >= g * sum(env.abs2(v) for v in xs) * L)  # concrete runs: a handful of steps
+        env.assume(phi * (30 if cfg.get('beta3_only') else 3) >= g * sum(env.abs2(v) for v in xs) * L)  # concrete runs: a bounded number of steps
     mk = env.mark()
     if env.symbolic and mode == 'stepsize':
         # dispersion on: only the initial step size is compared symbolically (both runs are cut at their first fft call);
@@ -196,8 +196,12 @@ def scen_pol_equiv(env, cfg):
                           None if bad else [], since=mk)
         if bad:
             return
+        import z3
+        from vf.core import SB
+        nl_t = g * sum(env.abs2(v) for v in xs) * L
+        steer = z3.And((nl_t >= phi * 8).t, (nl_t <= phi * 25).t, (env.abs2(xs[0]) >= 1).t)      # replay steering: several steps expected
         env.check('with dispersion (beta2 or beta3) and nonlinearity both present the step size is taken from phi_max/(gamma*peak power)',
-                  len(dens[0]) >= 1 and len(dens[1]) >= 1)
+                  SB(z3.BoolVal(len(dens[0]) >= 1 and len(dens[1]) >= 1), None, steer))
         env.check('the one-polarisation run uses the same step sizes as the two-polarisation run',
                   len(dens[0]) == len(dens[1]) >= 1 and env.And([env.eq(R(u), R(v), scale=10) for u, v in zip(*dens)]))
         return
@@ -221,7 +225,7 @@ def scen_pol_equiv(env, cfg):
         c1 = D_.FIBER(one, L, alpha=al, beta_2=b2, beta_3=b3, gamma=g, phi_max=phi * 3)
         diff = max(abs(complex(env.re(u), env.im(u)) - complex(env.re(v), env.im(v))) for u, v in zip(env.items(a.signal), env.items(c1.signal)))
         env.check('with dispersion (beta2 or beta3) and nonlinearity both present the step size is taken from phi_max/(gamma*peak power)',
-                  nl < 0.5 or float(phi) * 3 >= nl or diff > 1e-9)
+                  nl < 6 * float(phi) or diff > 1e-9)
     env.check('the one-polarisation run uses the same step sizes as the two-polarisation run',
               env.eqs(a.signal, env.rows(b.signal)[0], scale=10))
     env.check('FIBER(1-pol x).signal == FIBER([x, 0]).signal[0]', env.eqs(a.signal, env.rows(b.signal)[0], scale=10))
